@@ -53,13 +53,14 @@ func generate(seed uint64, prop string) simrt.Case {
 			}
 			acts = append(acts, simrt.Action{K: "inc", A: k, B: int64(r.Intn(1 << 16))})
 		case 1:
-			acts = append(acts, simrt.Action{K: "add", N: r.Intn(cfg.Pool), A: int64(1 + r.Intn(50))})
+			acts = append(acts, simrt.Action{K: "add", N: r.Intn(cfg.Pool), A: int64(1 + r.Intn(50)), C: int64(r.Intn(2))})
 		case 2:
-			acts = append(acts, simrt.Action{K: "update", N: r.Intn(cfg.Pool), A: int64(1 + r.Intn(50))})
+			acts = append(acts, simrt.Action{K: "update", N: r.Intn(cfg.Pool), A: int64(1 + r.Intn(50)), C: int64(r.Intn(2))})
 		case 3:
-			acts = append(acts, simrt.Action{K: "remove", N: r.Intn(cfg.Pool)})
+			acts = append(acts, simrt.Action{K: "remove", N: r.Intn(cfg.Pool), C: int64(r.Intn(2))})
 		case 4:
-			acts = append(acts, simrt.Action{K: "persist"})
+			// C=1: nothing looks at the set between this step and the next (observing it fills its caches)
+			acts = append(acts, simrt.Action{K: "persist", C: int64(r.Intn(2))})
 		case 5:
 			acts = append(acts, simrt.Action{K: "copymut", A: int64(1 + r.Intn(3)), N: r.Intn(cfg.Pool)})
 		}
@@ -212,7 +213,11 @@ func execute(t *testing.T, prop string, c simrt.Case) (out simrt.Outcome) {
 					}
 				}
 			}
-			compare(a.K)
+			if a.C == 0 {
+				compare(a.K)
+			} else {
+				out.Faults["unobserved_step"]++
+			}
 		case "persist":
 			out.Faults["persistence_round_trip"]++
 			n, err := roundTrip(reps[3].vs)
@@ -222,7 +227,11 @@ func execute(t *testing.T, prop string, c simrt.Case) (out simrt.Outcome) {
 			}
 			reps[3].vs = n
 			reps[3].justLoaded = true
-			compare("persist")
+			if a.C == 0 {
+				compare("persist")
+			} else {
+				out.Faults["unobserved_step"]++
+			}
 		case "copymut":
 			if reps[0].vs.Size() == 0 {
 				continue
